@@ -113,14 +113,14 @@ def obs_item(x):
     return ['?', type(x).__name__]
 
 
-def run_ep(expr: str, v: str, use_doc: bool):
-    """-> ('val', [canonical items]) | ('err', code) | ('escape', exception)"""
+def run_ep(expr: str, v: str, use_doc: bool, **parser_kwargs):
+    """-> ('val', [canonical items]) | ('err', code) | ('escape', exception);  parser_kwargs e.g. default_collation"""
     from elementpath import select, ElementPathError
     try:
         if use_doc:
-            r = select(_doc(), expr, parser=_parser(v))
+            r = select(_doc(), expr, parser=_parser(v), **parser_kwargs)
         else:
-            r = select(None, expr, parser=_parser(v), item=1)
+            r = select(None, expr, parser=_parser(v), item=1, **parser_kwargs)
     except ElementPathError as e:
         code = (getattr(e, 'code', None) or '?').split(':')[-1]
         return ('err', code)
